@@ -3677,10 +3677,19 @@ WBXML_DECLARE(const WBXMLLangEntry *) wbxml_tables_search_table(const WBXMLLangE
             }
         }
 
-        /* table scan for matching root element */
+        /* table scan for matching root element: restart at the first entry (the namespace scan above
+         * leaves 'index' at the end of the table), and compare the local names too, because a
+         * namespace aware XML parser delivers "namespace:local" */
+        index = 0;
         while (main_table[index].publicID != NULL) {
-            if (main_table[index].publicID->xmlRootElt && WBXML_STRCMP(main_table[index].publicID->xmlRootElt, root) == 0) 
-                return &main_table[index];
+            const WB_TINY *elt = main_table[index].publicID->xmlRootElt;
+            if (elt != NULL) {
+                const WB_TINY *elt_local = strrchr(elt, ':');   /* a prefixed root element of the table, e.g. o-ex:rights */
+                elt_local = (elt_local != NULL) ? elt_local + 1 : elt;
+                if ((WBXML_STRCMP(elt, root) == 0) ||
+                    ((sep != NULL) && (WBXML_STRCMP(elt_local, sep + 1) == 0)))
+                    return &main_table[index];
+            }
             index++;
         }
     }
